@@ -27,6 +27,7 @@ type IntegGen struct {
 	Names          string // "simple" | "ascii"
 	ExportPct      int
 	InteractivePct int  // per task: declared interactive
+	OddCommands    bool // blank command entries, commands starting with a background statement
 	HugePct        int  // per world: one command prints more than 1 MiB
 	CtxPct         int  // per world: a context (whose up commands may fail) used by some of the tasks
 	HookOutput     bool // before/after hooks print something too (it is not part of the captured output)
@@ -217,6 +218,14 @@ func GenTaskWorld(ch *Choices, p IntegGen) *IntegWorld {
 	for _, nm := range names {
 		t := &TaskSpec{Name: nm}
 		t.NCmd = ch.Range(1, p.MaxCmd, "ncmd")
+		if p.OddCommands && p.ChainProb == 0 {
+			if t.NCmd >= 2 && ch.Bool(1, 8, "blank-command-entry") {
+				t.BlankAt = 1 + ch.Choose(t.NCmd, "blank-at")
+			}
+			if ch.Bool(1, 8, "background-prefix") {
+				t.BgPrefix = map[int]bool{ch.Choose(t.NCmd, "bg-which"): true}
+			}
+		}
 		if p.MaxVar > 1 && ch.Bool(1, 3, "has-var") {
 			t.NVar = ch.Range(2, p.MaxVar, "nvar")
 			if ch.Bool(1, 4, "empty-variation") {
@@ -371,6 +380,7 @@ func runIntegJob(c *Ctl, job *Job, idx int, res *RunResult) {
 		gen.HookOutput = true
 		gen.HugePct = 2
 		gen.InteractivePct = 10
+		gen.OddCommands = true
 		w = GenTaskWorld(c.Ch, gen)
 		w.Format = []string{"raw", "prefixed", "cockpit"}[c.Ch.Weighted([]int{3, 2, 1}, "format")]
 	case "c07":
